@@ -15,7 +15,9 @@ RULE = ('(a) every observer the object offers (compose, ja3, hassh, hassh_server
         'rendering taken before must equal the one after and results must repeat. (b) every attrs field with a default '
         'of every class is probed for a mutable class-level object stored without copy (the same table is the input of '
         'the Lean theorem). (c) every generated encoding is parsed from a bytearray which is then overwritten and '
-        'truncated; the parsed object must not change; parse_mutable must return what parse_immutable returns. '
+        'truncated; the parsed object must not change; parse_mutable must return what parse_immutable returns; every container '
+        'of a second object parsed from the same bytes, and every default-valued container of a default-constructed instance, '
+        'is edited in place and the first object / a second and a later default-constructed instance must not move. '
         'Non-trivial: object with a mutable part; distinct: (class, bytes).')
 ASSUMPTIONS = ['(c) buffer aliasing is Python object identity: monitored on the real code, not a proof obligation']
 
@@ -143,6 +145,140 @@ def shared_defaults(run):
     run.evaluations += 2
 
 
+def _containers(obj, depth=0, seen=None):
+    """mutable containers reachable through the attrs fields of obj (the object's own state)"""
+    import attr
+    from cryptoparser.common.base import ArrayBase
+    if seen is None:
+        seen = set()
+    if id(obj) in seen or depth > 4:
+        return
+    seen.add(id(obj))
+    if isinstance(obj, (ArrayBase, list, set, bytearray, dict)):
+        yield obj
+    if isinstance(obj, (ArrayBase, list, tuple)):
+        for item in list(obj)[:8]:
+            for c in _containers(item, depth + 1, seen):
+                yield c
+    if attr.has(type(obj)) and not isinstance(obj, enum.Enum):
+        for f in attr.fields(type(obj)):
+            try:
+                v = getattr(obj, f.name)
+            except Exception:  # pylint: disable=broad-except
+                continue
+            for c in _containers(v, depth + 1, seen):
+                yield c
+
+
+def _mutate(container):
+    """one in-place edit; True when something changed"""
+    from cryptoparser.common.base import ArrayBase
+    try:
+        if isinstance(container, ArrayBase):
+            n = len(container)
+            for cand in ([container[0]] if n else []) + [0, 1, b'\x00']:
+                try:
+                    container.append(cand)
+                    return True
+                except Exception:  # pylint: disable=broad-except
+                    continue
+            if n:
+                del container[0]
+                return True
+            return False
+        if isinstance(container, list):
+            container.append(container[0] if container else 0)
+            return True
+        if isinstance(container, set):
+            if container:
+                container.pop()
+            else:
+                container.add(0)
+            return True
+        if isinstance(container, bytearray):
+            container.extend(b'\xa5')
+            return True
+        if isinstance(container, dict):
+            if container:
+                container.pop(next(iter(container)))
+                return True
+            return False
+    except Exception:  # pylint: disable=broad-except
+        return False
+    return False
+
+
+def state_independence(run, name, cls, obj, data, case):
+    """(b) on the real code: two objects parsed from the same bytes, and two objects constructed with default
+    arguments, share no state - an in-place edit of every container of one (for the constructed pair: of every
+    container reached through a field that took its default) is invisible through the other and through a later
+    default-constructed instance"""
+    import attr
+    try:
+        twin = cls.parse_immutable(bytes(data))[0]
+    except Exception:  # pylint: disable=broad-except
+        twin = None
+    if twin is not None and twin is not obj:
+        before = canon.generic(obj)
+        changed = sum(1 for c in list(_containers(twin)) if _mutate(c))
+        if changed and canon.generic(obj) != before:
+            run.finding('shared-state:{}:parsed-twin'.format(name),
+                        '{}: an in-place edit of an object parsed from the same bytes is visible through another '
+                        'parsed object'.format(name), case)
+    if not attr.has(type(obj)):
+        return
+    required = {}
+    defaulted = []
+    try:
+        for f in attr.fields(type(obj)):
+            if not f.init:
+                continue
+            if f.default is attr.NOTHING:
+                required[f.name.lstrip('_')] = getattr(obj, f.name)
+            else:
+                defaulted.append(f.name)
+        if not defaulted:
+            return
+        d1, d2 = type(obj)(**required), type(obj)(**required)
+    except Exception:  # pylint: disable=broad-except
+        return
+    snap = canon.generic(d2)
+    # defaults that are the same for two instances (random/time-dependent default factories are not comparable)
+    stable = {}
+    for fname in defaulted:
+        try:
+            a, b = canon.generic(getattr(d1, fname)), canon.generic(getattr(d2, fname))
+        except Exception:  # pylint: disable=broad-except
+            continue
+        if a == b:
+            stable[fname] = b
+    changed = 0
+    for fname in defaulted:
+        try:
+            value = getattr(d1, fname)
+        except Exception:  # pylint: disable=broad-except
+            continue
+        changed += sum(1 for c in list(_containers(value)) if _mutate(c))
+    if not changed:
+        return
+    run.count('state_independence', 'default_constructed_pairs_edited')
+    if canon.generic(d2) != snap:
+        run.finding('shared-state:{}:defaults'.format(name),
+                    '{}: editing the default-valued containers of one default-constructed instance changed another '
+                    'instance'.format(name), case)
+        return
+    try:
+        fresh = type(obj)(**required)
+    except Exception:  # pylint: disable=broad-except
+        return
+    for fname, want in stable.items():
+        if canon.generic(getattr(fresh, fname)) != want:
+            run.finding('shared-state:{}:defaults'.format(name),
+                        '{}.{}: editing one default-constructed instance changed the default a later instance gets'.format(
+                            name, fname), case)
+            return
+
+
 def aliasing(run, name, cls, data, case):
     buf = bytearray(data)
     try:
@@ -194,6 +330,7 @@ def run(run, driver_ok=True, deep=False):
             observer_purity(run, name, obj, case)
             cls = modelled[name][0] if name in modelled else type(obj)
             aliasing(run, name, cls, data, case)
+            state_independence(run, name, cls, obj, data, case)
     full_vector_hello(run)
     shared_defaults(run)
     run.notes.append('(c) aliasing and (a) mutation monitors run on the real code; (b) is the proof obligation')
